@@ -94,6 +94,26 @@ def real_encode(body, name="acc"):
     return pe, (mod, gen)
 
 
+def case_groups(case):
+    """merge plan: list of groups of body indices; a group of several kernels is merged into a graph of its
+    own first and that graph is then appended as a whole. Default: one kernel per step."""
+    return case.get("groups") or [[i] for i in range(len(case["bodies"]))]
+
+
+def real_group_graph(bodies, grp, keep):
+    """fresh real objects: encode the first body of the group, append the others"""
+    from snaxc.phs.combine import append_to_abstract_graph
+    if not grp:
+        raise ValueError("empty group")
+    g, owner = real_encode(bodies[grp[0]])
+    keep.append(owner)
+    for i in grp[1:]:
+        k, owner = real_encode(bodies[i])
+        keep.append(owner)
+        append_to_abstract_graph(k, g)
+    return g
+
+
 class Unrepresentable(Exception):
     pass
 
@@ -405,6 +425,68 @@ def gen_history(rng, tier, maxmux):
     return bodies[:1]
 
 
+def rename_ops(rng, body):
+    """same routing, other operation names: merging such kernels inserts no mux"""
+    ops = [[rng.choice(INT_OPS if o[1] == I32 else FLT_OPS), o[1], [list(x) for x in o[2]]] for o in body["ops"]]
+    return {"arg_tys": body["arg_tys"], "ops": ops, "yield": list(body["yield"])}
+
+
+def gen_grouped(rng, tier, maxmux):
+    """merge plan with groups: some groups are merged into a graph of their own first (multi-operation choose
+    ops, `ChooseOp.from_operations` with several operations); groups whose own graph needs a mux are rejected by
+    `append_to_abstract_graph` (NotImplementedError), which both sides must agree on"""
+    for _ in range(30):
+        bodies = gen_history(rng, tier, maxmux)
+        groups = []
+        out = []
+        for b in bodies:
+            r = rng.random()
+            if r < 0.55:
+                k = rng.choice([2, 2, 3])
+                grp = [b] + [rename_ops(rng, b) for _ in range(k - 1)]
+                if rng.random() < 0.25:  # one member with another routing: the group graph gets a mux
+                    grp[-1] = gen_body(rng, b["arg_tys"], len(b["ops"]), True, b)
+            else:
+                grp = [b]
+            groups.append(list(range(len(out), len(out) + len(grp))))
+            out.extend(grp)
+        if len(out) <= 7 and mux_estimate(out) <= maxmux and any(len(g) > 1 for g in groups):
+            order = list(range(len(groups)))
+            rng.shuffle(order)
+            return out, [groups[i] for i in order]
+    return bodies, [[i] for i in range(len(bodies))]
+
+
+def gen_from_ops(rng):
+    """raw operations (operands may repeat) handed to PEOp.from_operations"""
+    ty = rng.choice([I32, I32, F32])
+    nargs = rng.choice([1, 2, 3])
+    arg_tys = [ty] * nargs
+    n = rng.choice([1, 2, 2, 3, 3, 4]) if rng.random() < 0.95 else 0
+    ops = []
+    for k in range(n):
+        t = ty
+        if rng.random() < 0.07:
+            t = F32 if ty == I32 else I32  # operations of different types: the constructor asserts
+        if t != ty and t not in arg_tys:
+            arg_tys = arg_tys + [t]
+        cand = [["a", i] for i, a in enumerate(arg_tys) if a == t]
+        a = rng.choice(cand)
+        b = a if rng.random() < 0.4 else rng.choice(cand)
+        ops.append([rng.choice(INT_OPS if t == I32 else FLT_OPS), t, [a, b]])
+    return {"kind": "from_ops", "arg_tys": arg_tys, "ops": ops}
+
+
+def real_from_ops(case):
+    from snaxc.dialects import phs
+    from xdsl.dialects.builtin import SymbolRefAttr
+    from xdsl.ir import Block
+    blk = Block(arg_types=[_mlir_ty(t) for t in case["arg_tys"]])
+    raw = [_op_cls(name)(*[blk.args[s[1]] for s in srcs]) for name, _, srcs in case["ops"]]
+    blk.add_ops(raw)
+    return phs.PEOp.from_operations(SymbolRefAttr("acc"), raw), blk
+
+
 def gen_malformed(rng):
     """outside the quantifier: kernels of one history disagree on the interface, or do not use an argument"""
     nd = rng.choice([2, 3])
@@ -461,6 +543,13 @@ class C20(Prop):
             if rng.random() < 0.1:
                 yield {"kind": "malformed", "bodies": gen_malformed(rng)}
                 continue
+            if rng.random() < 0.04:
+                yield gen_from_ops(rng)
+                continue
+            if rng.random() < 0.15:
+                bodies, groups = gen_grouped(rng, tier, maxmux)
+                yield {"kind": "grouped", "bodies": bodies, "groups": groups}
+                continue
             bodies = gen_history(rng, tier, maxmux)
             rng.shuffle(bodies)
             yield {"kind": "history", "bodies": bodies}
@@ -499,7 +588,25 @@ class C20(Prop):
             # block argument ends up wired as data); the model side recognises the same situation
             return {"unrepresentable": True}
 
+    def _impl_from_ops(self, case):
+        try:
+            pe, blk = real_from_ops(case)
+        except (AssertionError, IndexError, ValueError) as e:
+            return {"raised": type(e).__name__}
+        pe.verify()
+        pj, _, _ = pe_json(pe)
+        n = len(pe.data_operands())
+        terms = []
+        for i in range(len(case["ops"])):
+            try:
+                terms.append(eval_pe(pe, sym_inputs(n), [i], sym_sem))
+            except Invalid:
+                terms.append(None)
+        return {"pe": pj, "true": pe.get_true_switches(), "concrete": pe.is_concrete(), "terms": terms}
+
     def _impl(self, case):
+        if case["kind"] == "from_ops":
+            return self._impl_from_ops(case)
         from snaxc.phs.combine import append_to_abstract_graph
         from snaxc.phs.decode import decode_abstract_graph
         bodies = case["bodies"]
@@ -526,17 +633,20 @@ class C20(Prop):
         out = {"enc": enc, "kterm": kterm, "steps": []}
         if len(ks) != len(bodies) or not ks:
             return out
-        abst, owner = real_encode(bodies[0])
-        keep.append(owner)
-        for t in range(len(bodies)):
-            if t > 0:
-                try:
-                    append_to_abstract_graph(ks[t], abst)
-                except Unrepresentable:
-                    raise
-                except Exception as e:  # noqa: BLE001
-                    out["steps"].append({"raised": type(e).__name__})
-                    break
+        groups = case_groups(case)
+        abst = None
+        for t, grp in enumerate(groups):
+            try:
+                g = real_group_graph(bodies, grp, keep)
+                if t == 0:
+                    abst = g
+                else:
+                    append_to_abstract_graph(g, abst)
+            except Unrepresentable:
+                raise
+            except Exception as e:  # noqa: BLE001
+                out["steps"].append({"raised": type(e).__name__})
+                break
             pj, ssa_ok, uniq = pe_json(abst)
             decs = []
             for k in ks:
@@ -551,15 +661,25 @@ class C20(Prop):
                 except Invalid:
                     term = None
                 decs.append({"sw": sw, "full": full, "term": term})
+            try:  # the element decoded against itself: only a concrete graph may be decoded
+                self_dec = {"sw": [int(x) for x in decode_abstract_graph(abst, abst)]}
+            except Exception as e:  # noqa: BLE001
+                self_dec = {"raised": type(e).__name__}
             out["steps"].append({"pe": pj, "ssa_ok": ssa_ok, "hyp_ok": True, "true": abst.get_true_switches(),
-                                 "dec": decs})
+                                 "dec": decs, "self": self_dec})
         return out
 
     # -- the model ----------------------------------------------------------------------------
     def requests(self, case):
+        if case["kind"] == "from_ops":
+            return [{"fn": "c20.fromops", "args": {"ops": [
+                [name, [case["arg_tys"][s[1]] for s in srcs], rty] for name, rty, srcs in case["ops"]]}}]
         if not all(well_typed(b) for b in case["bodies"]):
             return []
-        return [{"fn": "c20.history", "args": {"bodies": case["bodies"]}}]
+        args = {"bodies": case["bodies"]}
+        if case.get("groups"):
+            args["groups"] = case["groups"]
+        return [{"fn": "c20.history", "args": args}]
 
     def model(self, case, answers):
         if not answers:
@@ -568,6 +688,8 @@ class C20(Prop):
         if "ok" not in a:
             return {"model_error": a.get("err")}
         out = a["ok"]
+        if case["kind"] == "from_ops":
+            return out
 
         def switch_as_data(src, nd):
             if src[0] == "a":
@@ -589,6 +711,8 @@ class C20(Prop):
         """Runs the real code again (fresh objects) and evaluates the property with the PE interpreter."""
         from snaxc.phs.combine import append_to_abstract_graph
         from snaxc.phs.decode import decode_abstract_graph
+        if case["kind"] == "from_ops":
+            return self._oracle_from_ops(case)
         bodies = case["bodies"]
         if not all(well_typed(b) for b in bodies) or not bodies:
             return []
@@ -603,36 +727,53 @@ class C20(Prop):
                 pe, owner = real_encode(b)
                 keep.append(owner)
                 ks.append(pe)
-            abst, owner = real_encode(bodies[0])
-            keep.append(owner)
         except Exception as e:  # noqa: BLE001
             return [{"what": f"encoding a kernel body raised {type(e).__name__}: {str(e)[:120]}", "finding": None}]
         rnd = random.Random(len(bodies) * 7919 + len(sig))
         pts = None
-        for t in range(len(bodies)):
-            if t > 0:
+        groups = case_groups(case)
+        merged = []
+        abst = None
+        for t, grp in enumerate(groups):
+            try:
+                g = real_group_graph(bodies, grp, keep)
+            except Exception as e:  # noqa: BLE001
+                out.append({"what": f"merging the kernels {grp} raised {type(e).__name__}: {str(e)[:120]}", "finding": None})
+                return out
+            if t == 0:
+                abst = g
+            else:
+                from snaxc.dialects import phs as _phs
+                has_mux = any(isinstance(o, _phs.MuxOp) for o in g.body.block.ops)
                 try:
-                    append_to_abstract_graph(ks[t], abst)
-                except Exception as e:  # noqa: BLE001
-                    out.append({"what": f"merging kernel {t} raised {type(e).__name__}: {str(e)[:120]}", "finding": None})
+                    append_to_abstract_graph(g, abst)
+                except NotImplementedError as e:
+                    if has_mux:
+                        return out  # a graph with muxes is not accepted as `graph`: documented, not a violation
+                    out.append({"what": f"merging group {t} raised NotImplementedError: {str(e)[:120]}", "finding": None})
                     return out
+                except Exception as e:  # noqa: BLE001
+                    out.append({"what": f"merging group {t} raised {type(e).__name__}: {str(e)[:120]}", "finding": None})
+                    return out
+            merged = merged + list(grp)
             true_sw = abst.get_true_switches()
-            for i in range(t + 1):
+            for i in merged:
                 try:
                     sw = [int(x) for x in decode_abstract_graph(abst, ks[i])]
                 except Exception as e:  # noqa: BLE001
-                    out.append({"what": f"kernel {i} is undecodable after merging {t + 1} kernels: {type(e).__name__}",
+                    out.append({"what": f"kernel {i} is undecodable after merging {len(merged)} kernels: {type(e).__name__}",
                                 "finding": None})
                     continue
                 if len(sw) != true_sw:
                     out.append({"what": f"decode of kernel {i} yields {len(sw)} values, get_true_switches() = {true_sw}",
                                 "finding": None})
                     continue
+                out.extend(self._call_op(abst, ks[i], sw, i))
                 full = full_switches(abst, sw)
                 try:
                     got = eval_pe(abst, sym_inputs(len(sig)), full, sym_sem)
                 except Invalid as e:
-                    out.append({"what": f"kernel {i} after {t + 1} merges: decoded configuration is not evaluable ({e})",
+                    out.append({"what": f"kernel {i} after {len(merged)} merges: decoded configuration is not evaluable ({e})",
                                 "finding": None})
                     continue
                 if got == eval_body(bodies[i], sym_inputs(len(sig)), sym_sem):
@@ -642,12 +783,12 @@ class C20(Prop):
                     pts = concrete_inputs(sig, rnd)
                 for p in pts:
                     try:
-                        g = eval_pe(abst, p, full, conc_sem)
+                        g_ = eval_pe(abst, p, full, conc_sem)
                     except Invalid as e:
-                        g = f"invalid: {e}"
+                        g_ = f"invalid: {e}"
                     w = eval_body(bodies[i], p, conc_sem)
-                    if g != w:
-                        out.append({"what": f"kernel {i} after {t + 1} merges: merged element computes {g} instead of {w} "
+                    if g_ != w:
+                        out.append({"what": f"kernel {i} after {len(merged)} merges: merged element computes {g_} instead of {w} "
                                             f"on inputs {[str(x) for x in p]} under switches {full}", "finding": None})
                         break
             if out:
@@ -658,6 +799,53 @@ class C20(Prop):
         except Exception as e:  # noqa: BLE001
             out.append({"what": f"SNAXPHSAccelerator switch fields: {type(e).__name__}: {str(e)[:160]}", "finding": None})
         return out
+
+    def _oracle_from_ops(self, case):
+        """PEOp.from_operations: under switch value i the element computes operation i of its data ports, port j
+        feeding operand j"""
+        ops = case["ops"]
+        if not ops or len({tuple(o[1]) for o in ops}) != 1:
+            return []  # nothing promised: no operation / operations of different types (the constructor asserts)
+        pe, blk = real_from_ops(case)
+        n = len(pe.data_operands())
+        out = []
+        if n != 2:
+            out.append({"what": f"PEOp.from_operations: {n} data ports for binary operations", "finding": None})
+        if pe.get_true_switches() != (1 if len(ops) > 1 else 0):
+            out.append({"what": "PEOp.from_operations: get_true_switches() is not 1 for several / 0 for one operation",
+                        "finding": None})
+        for i, (name, _, _) in enumerate(ops):
+            try:
+                got = eval_pe(pe, sym_inputs(n), [i], sym_sem)
+            except Invalid as e:
+                got = f"invalid: {e}"
+            want = [name, sym_inputs(n)]
+            if got != want:
+                out.append({"what": f"PEOp.from_operations: under switch {i} the element computes {got}, expected {want}",
+                            "finding": None})
+        return out
+
+    def _call_op(self, abst, k, sw, i):
+        """decode_to_call_op: the emitted phs.call carries exactly the decoded values, in order"""
+        from snaxc.dialects import phs
+        from snaxc.phs.decode import decode_to_call_op
+        from xdsl.dialects import arith
+        ops = list(decode_to_call_op(abst, k))
+        if not ops or not isinstance(ops[-1], phs.CallOp):
+            return [{"what": f"decode_to_call_op of kernel {i} does not end in a phs.call", "finding": None}]
+        call = ops[-1]
+        consts = ops[:-1]
+        vals = [c.value.value.data for c in consts if isinstance(c, arith.ConstantOp)]
+        bad = []
+        if vals != list(sw) or len(consts) != len(sw):
+            bad.append(f"switch constants {vals} != decoded values {list(sw)}")
+        if [o.owner for o in call.switches] != consts:
+            bad.append("the call's switch operands are not the emitted constants, in order")
+        if list(call.data_operands) != list(abst.data_operands()):
+            bad.append("the call's data operands are not the element's data ports")
+        if call.name_prop.data != abst.name_prop.data:
+            bad.append("the call names another element")
+        return [{"what": f"decode_to_call_op of kernel {i}: {b}", "finding": None} for b in bad]
 
     def _accelerator_fields(self, abst, bodies):
         from snaxc.accelerators.snax_phs import SNAXPHSAccelerator
@@ -670,6 +858,20 @@ class C20(Prop):
         out = []
         if nfields != len([f for f in acc.fields if f.startswith("phs_switch_")]):
             out.append({"what": "phs_switch fields missing from the accelerator's field list", "finding": None})
+        if nfields != abst.get_true_switches():
+            out.append({"what": f"accelerator reports {nfields} switch fields, get_true_switches() = {abst.get_true_switches()}",
+                        "finding": None})
+        # the accfg.accelerator op: one CSR per switch field, no address shared with another field
+        op = acc.generate_acc_op()
+        fields = {k: v.value.data for k, v in op.fields.data.items()}
+        launch = {k: v.value.data for k, v in op.launch_fields.data.items()}
+        sw_fields = [k for k in fields if k.startswith("phs_switch_")]
+        if sorted(sw_fields) != sorted(acc.phs_switch_fields):
+            out.append({"what": f"accfg.accelerator declares switch fields {sw_fields}, expected {acc.phs_switch_fields}",
+                        "finding": None})
+        addrs = list(fields.values()) + list(launch.values()) + [op.barrier.value.data]
+        if len(set(addrs)) != len(addrs):
+            out.append({"what": "accfg.accelerator of the PHS accelerator maps two fields to one CSR address", "finding": None})
         for i, b in enumerate(bodies):
             mod, gen = build_generic(b)
             vals = acc.get_switch_values(gen)
@@ -679,6 +881,8 @@ class C20(Prop):
         return out
 
     def nontrivial(self, case, impl_out):
+        if case["kind"] == "from_ops":
+            return isinstance(impl_out, dict) and len(impl_out.get("terms", [])) > 1
         if not isinstance(impl_out, dict) or not impl_out.get("steps") or len(case["bodies"]) < 2:
             return False
         last = impl_out["steps"][-1]
@@ -688,6 +892,8 @@ class C20(Prop):
 
     def stats_key(self, case, impl_out):
         k = case.get("kind", "case")
+        if k == "from_ops":
+            return f"{k}:raised:{impl_out['raised']}" if "raised" in impl_out else f"{k}:n={len(case['ops'])}"
         if isinstance(impl_out, dict) and "raised" in impl_out:
             return f"{k}:raised:{impl_out['raised']}"
         if isinstance(impl_out, dict) and impl_out.get("steps"):
@@ -698,7 +904,21 @@ class C20(Prop):
         return f"{k}:no-steps"
 
     def shrink(self, case):
+        if case["kind"] == "from_ops":
+            for i in range(len(case["ops"])):
+                yield {"kind": "from_ops", "arg_tys": case["arg_tys"], "ops": case["ops"][:i] + case["ops"][i + 1:]}
+            return
         bodies = case["bodies"]
+        if case.get("groups"):
+            groups = case["groups"]
+            # drop a whole group (re-index), or flatten the plan
+            for gi in range(len(groups)):
+                if len(groups) > 1:
+                    keepi = [i for g in groups[:gi] + groups[gi + 1:] for i in g]
+                    remap = {old: new for new, old in enumerate(sorted(keepi))}
+                    yield {"kind": case["kind"], "bodies": [bodies[i] for i in sorted(keepi)],
+                           "groups": [[remap[i] for i in g] for g in groups[:gi] + groups[gi + 1:]]}
+            return
         for i in range(len(bodies)):
             if len(bodies) > 1:
                 yield {"kind": case["kind"], "bodies": bodies[:i] + bodies[i + 1:]}
